@@ -344,59 +344,145 @@ def check_butler_history(ctx: Ctx, hist, res):
 # ================================================================================================
 # 3. registry histories (caching_context on vs off)
 # ================================================================================================
+RUNS = (0, 1, 2, 3, 7, 8, 9)
+CHAINS = (4, 5, 10, 11)
+TAGGED = (6, 12)
+FIXTURE = (0, 1, 2, 3, 4, 5, 6)
+
+
 def gen_reg_history(rng, length, modelled=True):
-    runs = [0, 1, 2, 3]
+    """Histories are generated against a book of the registry (which collections exist, chain definitions) so that
+    most operations are valid; refused ones (removing a chain's child, removing a missing collection) are kept on purpose."""
+    exist = set(FIXTURE)
+    chains = {4: [], 5: []}
     init = []
     for c in (4, 5):
         if rng.random() < 0.7:
-            init.append([c, rng.sample(runs, rng.choice([1, 2, 2, 3]))])
+            kids = rng.sample([0, 1, 2, 3], rng.choice([1, 2, 2, 3]))
+            init.append([c, kids])
+            chains[c] = kids
     ops = []
-    nid = 0
-    inside = False
-    per_run = {}
+    nid = [0]
+    inside = [False]
+
+    def runs():
+        return [c for c in RUNS if c in exist]
+
+    def nonchains():
+        return [c for c in RUNS + TAGGED if c in exist]
+
+    def anyc():
+        return rng.choice(sorted(exist))
+
+    def is_kid(c):
+        return any(c in k for k in chains.values())
+
+    def put(run=None, ty=None):
+        if nid[0] >= 39 or not runs():
+            return
+        ops.append({"op": "put", "id": nid[0], "ty": rng.randrange(3) if ty is None else ty, "run": rng.choice(runs()) if run is None else run})
+        nid[0] += 1
+
+    def remove(c):
+        ops.append({"op": "remove", "c": c})
+        if c in exist and not is_kid(c):
+            exist.discard(c)
+            chains.pop(c, None)
+
+    def register(c):
+        ops.append({"op": "register", "c": c})
+        if c not in exist:
+            exist.add(c)
+            if c in CHAINS:
+                chains[c] = []
+
+    def setchain(c, kids):
+        ops.append({"op": "setchain", "c": c, "kids": kids})
+        chains[c] = kids
+
     for _ in range(length):
         x = rng.random()
-        c_any = rng.choice([0, 1, 2, 3, 4, 4, 5, 5])
-        if x < 0.12:
-            ops.append({"op": "exit" if inside else "enter"})
-            inside = not inside
-        elif x < 0.34 and nid < 38:
-            run, ty = rng.choice(runs), rng.randrange(3)
-            ops.append({"op": "put", "id": nid, "ty": ty, "run": run})
-            per_run.setdefault((run, ty), []).append(nid)
-            nid += 1
+        if x < 0.10:
+            ops.append({"op": "exit" if inside[0] else "enter"})
+            inside[0] = not inside[0]
+        elif x < 0.28:
+            put()
+        elif x < 0.37:
+            cs_ = [c for c in CHAINS if c in exist]
+            if cs_:
+                setchain(rng.choice(cs_), rng.sample(nonchains(), min(len(nonchains()), rng.choice([0, 1, 2, 2, 3]))))
         elif x < 0.46:
-            ops.append({"op": "setchain", "c": rng.choice([4, 5]), "kids": rng.sample(runs, rng.choice([0, 1, 2, 2, 3]))})
-        elif x < 0.64:
-            ops.append({"op": "qsummary", "c": c_any})
-        elif x < 0.90 or modelled:
-            ops.append({"op": "qdata", "ty": rng.randrange(3), "c": c_any})
+            free = [c for c in sorted(exist) if not is_kid(c)]
+            y = rng.random()
+            if y < 0.75 and free:
+                remove(rng.choice(free))
+            elif y < 0.9:
+                remove(anyc())                                   # possibly a chain's child: refused
+            else:
+                remove(rng.choice(RUNS + CHAINS + TAGGED))       # possibly missing: refused
+        elif x < 0.55:
+            missing = [c for c in RUNS + CHAINS + TAGGED if c not in exist]
+            register(rng.choice(missing) if missing and rng.random() < 0.85 else anyc())
+        elif x < 0.70:
+            ops.append({"op": "qsummary", "c": anyc()})
+        elif x < 0.92 or modelled:
+            ops.append({"op": "qdata", "ty": rng.randrange(3), "c": anyc()})
         else:
             y = rng.random()
             if y < 0.3:
-                ops.append({"op": "qlegacy", "ty": rng.randrange(3), "c": c_any})
+                ops.append({"op": "qlegacy", "ty": rng.randrange(3), "c": anyc()})
             elif y < 0.5:
-                ops.append({"op": "qfind", "ty": rng.randrange(3), "id": rng.randrange(max(1, nid)), "c": c_any})
-            elif y < 0.65:
-                ops.append({"op": "qchain", "c": rng.choice([4, 5])})
+                ops.append({"op": "qfind", "ty": rng.randrange(3), "id": rng.randrange(max(1, nid[0])), "c": anyc()})
+            elif y < 0.65 and [c for c in CHAINS if c in exist]:
+                ops.append({"op": "qchain", "c": rng.choice([c for c in CHAINS if c in exist])})
             elif y < 0.8:
                 ops.append({"op": "qcolls", "flatten": rng.random() < 0.5})
-            else:
-                ops.append({"op": "tag", "ty": rng.randrange(3), "run": rng.choice(runs)})
+            elif runs() and 6 in exist:
+                ops.append({"op": "tag", "ty": rng.randrange(3), "run": rng.choice(runs())})
                 ops.append({"op": "qdata", "ty": rng.randrange(3), "c": 6})
-    if rng.random() < 0.3:
+    z = rng.random()
+    if z < 0.3 and [c for c in CHAINS if c in exist]:
         # directed motif: cached read of a chain's summary, write, read again inside one context
-        c = rng.choice([4, 5])
-        motif = [{"op": "qsummary", "c": c}, {"op": "qdata", "ty": rng.randrange(3), "c": c}]
-        w = rng.choice(["put", "setchain"])
-        if w == "put" and nid < 39:
-            motif.append({"op": "put", "id": nid, "ty": rng.randrange(3), "run": rng.choice(runs)})
+        c = rng.choice([c for c in CHAINS if c in exist])
+        if not inside[0]:
+            ops.append({"op": "enter"})
+            inside[0] = True
+        ops += [{"op": "qsummary", "c": c}, {"op": "qdata", "ty": rng.randrange(3), "c": c}]
+        if rng.random() < 0.5:
+            put()
         else:
-            motif.append({"op": "setchain", "c": c, "kids": rng.sample(runs, rng.choice([1, 2, 3]))})
-        motif += [{"op": "qdata", "ty": t_, "c": c} for t_ in range(3)] + [{"op": "qsummary", "c": c}]
-        ops += ([] if inside else [{"op": "enter"}]) + motif
-        inside = True
-    if inside:
+            setchain(c, rng.sample(nonchains(), min(len(nonchains()), rng.choice([1, 2, 3]))))
+        ops += [{"op": "qdata", "ty": t_, "c": c} for t_ in range(3)] + [{"op": "qsummary", "c": c}]
+    elif z < 0.6:
+        # directed motif: a collection with a cached summary is removed and another one registered (SQLite hands the
+        # key of the removed collection to the new one when it was the most recent)
+        new = [c for c in RUNS + TAGGED + CHAINS if c not in exist]
+        if len(new) >= 2:
+            a_, b_ = rng.sample(new, 2)
+            if not inside[0] and rng.random() < 0.3:
+                register(a_)
+                if a_ in RUNS:
+                    put(a_)
+            if not inside[0]:
+                ops.append({"op": "enter"})
+                inside[0] = True
+            register(a_)
+            if a_ in RUNS:
+                put(a_)
+                put(a_)
+            elif a_ in CHAINS and runs():
+                setchain(a_, rng.sample(runs(), 1))
+            ops.append({"op": "qsummary", "c": a_})
+            if rng.random() < 0.5:
+                ops.append({"op": "qdata", "ty": rng.randrange(3), "c": a_})
+            remove(a_)
+            register(b_)
+            ops.append({"op": "qsummary", "c": b_})
+            ops += [{"op": "qdata", "ty": t_, "c": b_} for t_ in range(3)]
+            if b_ in RUNS:
+                put(b_)
+                ops.append({"op": "qsummary", "c": b_})
+    if inside[0]:
         ops.append({"op": "exit"})
     return {"init_chains": init, "ops": ops, "modelled": modelled}
 
@@ -424,7 +510,7 @@ def check_reg_history(ctx: Ctx, hist, res):
             inside, last_write, read_in_ctx = True, "none", False
         elif k == "exit":
             inside = False
-        elif k in ("put", "setchain", "tag"):
+        elif k in ("put", "setchain", "tag", "remove", "register"):
             if inside:
                 if read_in_ctx:
                     stats["stale_risk"] += 1
@@ -438,7 +524,7 @@ def check_reg_history(ctx: Ctx, hist, res):
                 read_in_ctx = True
                 if last_write != "none" and oc["res"]:
                     stats["nonempty_after_write"] += 1
-        if isinstance(ou["res"], str) and k in ("put", "setchain", "enter", "exit"):
+        if isinstance(ou["res"], str) and k in ("enter", "exit"):
             fail(i, f"registry-op-failed:{k}", f"{k} failed without caching: {ou.get('msg')}")
         if first is not None:
             break
@@ -451,6 +537,10 @@ def _crop(op):
         return "Enter"
     if k == "exit":
         return "Exit"
+    if k == "register":
+        return f"Register {cn(op['c'])} {'true' if op['c'] in CHAINS else 'false'}"
+    if k == "remove":
+        return f"RemoveColl {cn(op['c'])}"
     if k == "setchain":
         return f"SetChain {cn(op['c'])} {clist(cn(x) for x in op['kids'])}"
     if k == "put":
@@ -463,19 +553,25 @@ def _crop(op):
 
 
 def coq_reg_case(hist, res):
-    items = []
+    """Gallina literal `list (rop * observed cached * observed uncached)`; the fixture's registrations and initial chain
+    definitions are the first operations (the model starts on an empty registry); a refused operation is [9999]."""
+    items = [f"(Register {cn(c)} {'true' if c in CHAINS else 'false'}, [], [])" for c in FIXTURE]
+    items += [f"(SetChain {cn(c)} {clist(cn(x) for x in kids)}, [], [])" for c, kids in hist["init_chains"]]
+
+    def ans(r):
+        if isinstance(r, str):
+            return "[9999%N]" if r.startswith("E:") else None
+        if any(x < 0 for x in r):
+            return None
+        return clist(cn(x) for x in r)
+
     for op, oc, ou in zip(hist["ops"], res["cached"], res["uncached"]):
         o = _crop(op)
-        if o is None or isinstance(oc["res"], str) or isinstance(ou["res"], str):
+        a1, a2 = ans(oc["res"]), ans(ou["res"])
+        if o is None or a1 is None or a2 is None:
             return None
-        if any(x < 0 for x in oc["res"] + ou["res"]):
-            return None
-        items.append(f"({o}, {clist(cn(x) for x in oc['res'])}, {clist(cn(x) for x in ou['res'])})")
-    init = {4: [], 5: []}
-    for c, kids in hist["init_chains"]:
-        init[c] = kids
-    ch = clist(f"({cn(c)}, {clist(cn(x) for x in kids)})" for c, kids in sorted(init.items()))
-    return f"({ch}, {clist(items)})"
+        items.append(f"({o}, {a1}, {a2})")
+    return clist(items)
 
 
 # ================================================================================================
@@ -597,7 +693,7 @@ def _process(ctx: Ctx, kind, results, cases, metas, shrink=True):
 
 def _model_compare(ctx: Ctx, cases, metas, suffix=""):
     for kind, checker, fb in (("mgr", "chk_mgr_history", "let '(ca, cb, l) := {c} in mfirst_bad true ca cb empty_world 1%N l"),
-                              ("registry", "chk_reg_history", "let '(ch, l) := {c} in rfirst_bad true (rinit ch) (rinit ch) 1%N l")):
+                              ("registry", "chk_reg_history", "rfirst_bad as_coded rinit rinit 1%N ({c})")):
         if not cases[kind]:
             continue
         bad = ctx.coq_cases(f"{kind}_history{suffix}", HDR, cases[kind], checker, shard=40 if kind == "mgr" else 60, timeout=600)
